@@ -35,7 +35,7 @@ PROPS = {
                  "singleton, ragged, absent containers); values: [*]-free value expressions x 4 contexts. "
                  "Non-trivial = some [*] path evaluated to >=2 elements or some path has >=2 index steps (values: "
                  ">=2 steps or a present indexed value); distinct by hash of (canonical text, context)."),
-        "quick": [st("rel")],
+        "quick": [st("rel"), st("asan")],
         "thorough": [st("rel"), st("dbg"), st("asan"), st("miri", only="random", jobs=1, shards=16, timeout=5400)],
         "floors": {"quick": {"evaluations": 60000, "distinct_nontrivial": 20000,
                              "evals_with_ragged_operands": 1000}},
@@ -51,7 +51,7 @@ PROPS = {
                  "of the context-carrying definition with 1..3 arguments, nested and mapped. Observed: the "
                  "(site, arguments, result) log written by the functions and the definition-context event log. "
                  "Non-trivial = at least one call was evaluated; distinct by hash of (canonical text, context)."),
-        "quick": [st("rel")],
+        "quick": [st("rel"), st("asan")],
         "thorough": [st("rel"), st("dbg"), st("asan"), st("miri", only="random", jobs=1, shards=16, timeout=5400)],
         "floors": {"quick": {"evaluations": 30000, "distinct_nontrivial": 15000, "calls_observed": 30000,
                              "ctx_events": 10000}},
@@ -259,7 +259,7 @@ PROPS = {
                  "scheme; constructors: Array::try_from_iter/try_from_vec, Map::try_from_iter with homogeneous and "
                  "heterogeneous element lists; typed: the transmute-based TypedArray/TypedMap accessors. "
                  "distinct_nontrivial = distinct histories of length >=2."),
-        "quick": [st("rel")],
+        "quick": [st("rel"), st("asan")],
         "thorough": [st("rel"), st("dbg"), st("asan"), st("miri", only="typed", jobs=1, shards=8, name="typed", timeout=5400), st("miri", only="constructors", jobs=1, shards=8, name="constructors", timeout=5400)],
         "floors": {"quick": {"evaluations": 150000, "distinct_nontrivial": 12000, "heterogeneous_inputs": 800}},
         "on_death": "sanitizer",
@@ -321,7 +321,7 @@ PROPS = {
                  "acceptance model: accepted documents must load and equal the model's decoding, rejected ones must give "
                  "an error; never a panic, never a stored value of another type; ffi: the C entry points on the same "
                  "documents. distinct_nontrivial = distinct contexts / documents."),
-        "quick": [st("rel")],
+        "quick": [st("rel"), st("asan")],
         "thorough": [st("rel"), st("dbg"), st("asan"),
                      st("miri", only="round-trip", jobs=1, shards=16, name="round-trip", timeout=5400)],
         "floors": {"quick": {"evaluations": 30000, "distinct_nontrivial": 8000, "round_trips_ok": 5000,
@@ -365,7 +365,7 @@ PROPS = {
                  "definition that panics on demand in check_param (parse), compile or its body (match) with the "
                  "catcher enabled must give Status::Panic with the message in last-error, must not unwind, and the "
                  "next call on the thread must work. distinct_nontrivial = distinct filter texts / sequences."),
-        "quick": [st("rel")],
+        "quick": [st("rel"), st("asan")],
         "thorough": [st("rel"), st("dbg"), st("asan", env={"ASAN_OPTIONS": "halt_on_error=1:abort_on_error=1:detect_leaks=1"}),
                      st("miri", only="panics", jobs=1, shards=8, name="panics", timeout=5400), st("miri", only="setters", jobs=1, shards=8, name="setters", timeout=5400),
                      st("miri", only="differential", jobs=1, shards=8, name="differential", timeout=5400),
